@@ -1,0 +1,131 @@
+//go:build verif
+
+package main
+
+import (
+	"encoding/json"
+
+	"github.com/ludo-technologies/pyscn/internal/analyzer"
+)
+
+type sccCycle struct {
+	Modules  []string `json:"modules"`
+	Size     int      `json:"size"`
+	Severity string   `json:"severity"`
+	Chains   int      `json:"chains"`
+}
+
+type sccResult struct {
+	Has          bool       `json:"has"`
+	TotalCycles  int        `json:"total_cycles"`
+	TotalModules int        `json:"total_modules"`
+	Cycles       []sccCycle `json:"cycles"`
+	Low          int        `json:"low"`
+	Medium       int        `json:"medium"`
+	High         int        `json:"high"`
+	Critical     int        `json:"critical"`
+	Largest      int        `json:"largest"`
+	Core         []string   `json:"core"`
+	Groups       [][]string `json:"groups"`
+	HasQuick     bool       `json:"has_quick"`
+	Nodes        int        `json:"nodes"`
+	Edges        int        `json:"edges"`
+}
+
+func sccOnce(modules []string, edges [][2]string) sccResult {
+	g := analyzer.NewDependencyGraph("/p")
+	for _, m := range modules {
+		g.AddModule(m, "/p/"+m+".py")
+	}
+	for _, e := range edges {
+		g.AddDependency(e[0], e[1], analyzer.DependencyEdgeImport, nil)
+	}
+	res := analyzer.DetectCircularDependencies(g)
+	out := sccResult{
+		Has: res.HasCircularDependencies, TotalCycles: res.TotalCycles, TotalModules: res.TotalModulesInCycles,
+		Low: res.LowSeverityCycles, Medium: res.MediumSeverityCycles, High: res.HighSeverityCycles,
+		Critical: res.CriticalSeverityCycles, Core: res.CoreInfrastructure, Groups: g.CyclicGroups,
+		Nodes: g.TotalModules, Edges: g.TotalEdges, Cycles: []sccCycle{},
+	}
+	if res.LargestCycle != nil {
+		out.Largest = res.LargestCycle.Size
+	}
+	for _, c := range res.CircularDependencies {
+		out.Cycles = append(out.Cycles, sccCycle{Modules: c.Modules, Size: c.Size, Severity: string(c.Severity), Chains: len(c.Dependencies)})
+	}
+	out.HasQuick = analyzer.HasCircularDependencies(g)
+	return out
+}
+
+func init() {
+	// scc: build a DependencyGraph through AddModule/AddDependency and run the real detector.
+	// "reps" > 1 repeats the run (fresh graph, fresh Go map iteration orders) and returns
+	// every result, so that order dependence would show.
+	register("scc", func(raw json.RawMessage) (interface{}, error) {
+		var req struct {
+			Modules []string    `json:"modules"`
+			Edges   [][2]string `json:"edges"`
+			Reps    int         `json:"reps"`
+		}
+		if err := json.Unmarshal(raw, &req); err != nil {
+			return nil, err
+		}
+		if req.Reps < 1 {
+			req.Reps = 1
+		}
+		runs := make([]sccResult, 0, req.Reps)
+		for i := 0; i < req.Reps; i++ {
+			runs = append(runs, sccOnce(req.Modules, req.Edges))
+		}
+		return map[string]interface{}{"runs": runs}, nil
+	})
+
+	// scc_masks: the same for many small graphs at once: modules m0..m{n-1}, the imports of
+	// graph k are the pairs (a,b) with bit a*n+b set in masks[k]. Returns the raw cycles only.
+	register("scc_masks", func(raw json.RawMessage) (interface{}, error) {
+		var req struct {
+			N     int      `json:"n"`
+			Masks []uint64 `json:"masks"`
+			Lo    uint64   `json:"lo"`
+			Count uint64   `json:"count"`
+		}
+		if err := json.Unmarshal(raw, &req); err != nil {
+			return nil, err
+		}
+		names := make([]string, req.N)
+		for i := range names {
+			names[i] = "m" + string(rune('0'+i))
+		}
+		masks := req.Masks
+		if req.Count > 0 {
+			masks = make([]uint64, req.Count)
+			for i := range masks {
+				masks[i] = req.Lo + uint64(i)
+			}
+		}
+		type row struct {
+			C [][]string `json:"c"` // cycles as reported
+			S []string   `json:"s"` // severities
+			T [2]int     `json:"t"` // total cycles, total modules in cycles
+		}
+		out := make([]row, 0, len(masks))
+		for _, mask := range masks {
+			var edges [][2]string
+			for a := 0; a < req.N; a++ {
+				for b := 0; b < req.N; b++ {
+					if mask>>(uint(a*req.N+b))&1 == 1 {
+						edges = append(edges, [2]string{names[a], names[b]})
+					}
+				}
+			}
+			r := sccOnce(names, edges)
+			rw := row{C: [][]string{}, S: []string{}, T: [2]int{r.TotalCycles, r.TotalModules}}
+			for _, c := range r.Cycles {
+				rw.C = append(rw.C, c.Modules)
+				rw.S = append(rw.S, c.Severity)
+			}
+			out = append(out, rw)
+		}
+		return map[string]interface{}{"rows": out}, nil
+	})
+}
